@@ -3,10 +3,12 @@ from . import core
 
 
 class Ctx:
-    def __init__(self, facts, bins, tier, rep):
+    def __init__(self, facts, bins, tier, rep, primary=None):
         self.facts = facts          # profile -> Facts (library crate)
         self.bins = bins            # profile -> Facts (binary crate)
-        self.F = facts["dev"]
+        import os
+        self.primary = primary or os.environ.get("VERIF_PRIMARY", "dev")
+        self.F = facts[self.primary]
         self.tier = tier
         self.rep = rep
         self.thorough = tier == "thorough"
